@@ -324,9 +324,22 @@ func (w *World) errorRecorded(e ssa.Value) (bool, string) {
 				if bi, ok := u.Call.Value.(*ssa.Builtin); ok && bi.Name() == "append" {
 					work = append(work, u)
 				}
-			case *ssa.MakeInterface, *ssa.Phi, *ssa.ChangeInterface:
+				// handed to a function of the module (recordError(e, l)): followed into its parameter
+				if callee := u.Call.StaticCallee(); callee != nil && callee.Blocks != nil && corePkg(fnPkgPath(callee)) && !u.Call.IsInvoke() {
+					for i, a := range u.Call.Args {
+						if a == v && i < len(callee.Params) {
+							work = append(work, callee.Params[i])
+						}
+					}
+				}
+			case *ssa.MakeInterface, *ssa.Phi, *ssa.ChangeInterface, *ssa.TypeAssert, *ssa.Extract:
 				work = append(work, u.(ssa.Value))
 			case *ssa.Return:
+				if _, isParam := e.(*ssa.Parameter); !isParam && u.Parent() != nil {
+					if in, ok := e.(ssa.Instruction); ok && in.Parent() != u.Parent() {
+						continue // a return of a callee the value was handed to: not the handler's own result
+					}
+				}
 				return true, "returned"
 			}
 		}
